@@ -43,6 +43,11 @@ def breaks_family(name, ncells):
         for i in range(n):
             out.append(out[-1] + Fr(1, 4 ** i))
         return out
+    if name == 'decreasing':
+        out = [Fr(-5, 2)]
+        for i in range(n):
+            out.append(out[-1] + Fr(n - i, n) + Fr(1, 6))          # first cell the widest
+        return out
     if name == 'irregular':
         steps = [Fr(3, 7), Fr(5, 3), Fr(1, 9), Fr(2), Fr(4, 5), Fr(1, 2), Fr(7, 4), Fr(1, 11)]
         out = [Fr(-3, 2)]
